@@ -84,7 +84,13 @@ fn nest(v: RespValue, levels: usize) -> RespValue {
     v
 }
 
+/// number of nested array levels
+fn adepth(v: &RespValue) -> usize {
+    match v { RespValue::Array(l) => 1 + l.iter().map(adepth).max().unwrap_or(0), _ => 0 }
+}
+
 fn mode_frames(rng: &mut Rng, n: u64) {
+    let max_depth = arg_u64("--max-depth", 128) as usize;
     for i in 0..n {
         // 1 in 6 values carries CR/LF inside simple strings / errors (not round-trippable; still compared with the model)
         let crlf_lines = rng.chance(1, 6);
@@ -104,7 +110,8 @@ fn mode_frames(rng: &mut Rng, n: u64) {
         if !crlf_lines {
             oracle = match &back {
                 Ok(Ok(Some((v2, c)))) if *v2 == v && *c == enc.len() => "ok".into(),
-                Ok(Err(_)) => "deep".into(), // only legitimate beyond the nesting limit: decided by the model
+                Ok(Err(e)) if adepth(&v) <= max_depth => format!("bad:a well-formed value with {} nested array levels (limit {max_depth}) is encoded but its encoding is refused by the decoder: {e}", adepth(&v)),
+                Ok(Err(_)) => "deep".into(), // beyond the nesting limit
                 other => format!("bad:decode of encode gave {:?}", other.as_ref().map(|r| r.as_ref().map(|o| o.as_ref().map(|(_, c)| *c)).map_err(|e| e.to_string()))),
             };
         }
